@@ -46,6 +46,7 @@ Definition prop_ok (c : case) : bool :=
       match x with
       | C16.CReorder input out => if wm_safe (strip_fb input) then wm_safe (strip_fb out) else true
       | C16.CSeq _ _ _ bs out => if senders_safe 1 bs then wm_safe (strip_fb out) else true
+      | C16.CJob _ _ _ _ _ => true
       end
   end.
 
